@@ -241,3 +241,116 @@ Proof.
   subst n'. exists c1, c2. cbn [get_child is_listk]. repeat split; auto.
   eapply Sim_trans; [apply Sim_sym; exact HS|exact HS'].
 Qed.
+
+(* ---------- a mentioned container key, whatever the newer value is (a !del one included) ---------- *)
+(* the remove-this-key idiom of the loop: the recursive outcome is empty, does not outrank the newer value, and the newer value is !del *)
+Definition idiom (n v : node) : bool := (negb (truthy n) && negb (has_priority_over n v false) && explicit_delete v)%bool.
+
+Section HitGen.
+  Variable rec : path -> node -> node -> res (node * who).
+
+  Lemma step_hit_gen p f x ch k v c0 cur' : merge_step rec [] p (Ok (Comp CDict f x ch)) (k, v) = Ok cur' ->
+    aget k ch = Some c0 -> is_comp c0 = true ->
+    exists n w0 ch', rec (p ++ [k]) c0 v = Ok (n, w0) /\ cur' = Comp CDict f x ch' /\
+                     (idiom n v = false -> exists c', aget k ch' = Some c' /\ Sim n c').
+  Proof.
+    intros H Hc Hcomp. unfold merge_step in H. cbn [bind get_child is_listk path_in existsb] in H. rewrite Hc in H.
+    destruct (rec (p ++ [k]) c0 v) as [[n w0]|e q]; cbn [bind] in H; [|discriminate].
+    rewrite Hcomp in H. fold (idiom n v) in H. exists n, w0. destruct (idiom n v).
+    - cbn [remove_child is_listk] in H. destruct (ahas k ch); [|discriminate]. inversion H; subst.
+      eexists. split; [reflexivity|]. split; [reflexivity|discriminate].
+    - destruct w0.
+      + inversion H; subst. cbn [put_child is_listk]. eexists. split; [reflexivity|]. split; [reflexivity|].
+        intros _. eexists. split; [apply aget_aset_eq|apply Sim_refl].
+      + cbn [set_child is_listk] in H. inversion H; subst. eexists. split; [reflexivity|]. split; [reflexivity|].
+        intros _. eexists. split; [apply aget_aset_eq|apply adopt_sim].
+  Qed.
+
+  Lemma steps_hit_gen p k v c0 : forall cho f x ch s2, NoDup (map fst cho) -> aget k cho = Some v ->
+    fold_left (merge_step rec [] p) cho (Ok (Comp CDict f x ch)) = Ok s2 ->
+    aget k ch = Some c0 -> is_comp c0 = true ->
+    exists n w0 ch2, rec (p ++ [k]) c0 v = Ok (n, w0) /\ s2 = Comp CDict f x ch2 /\
+                     (idiom n v = false -> exists c', aget k ch2 = Some c' /\ Sim n c').
+  Proof.
+    induction cho as [|[k' v'] rest IH]; intros f x ch s2 Hnd Hk H Hc Hcomp; [discriminate|].
+    cbn [map fst] in Hnd. inversion Hnd as [|? ? Hni Hnd']; subst. cbn [fold_left] in H. cbn [aget] in Hk.
+    destruct (merge_step rec [] p (Ok (Comp CDict f x ch)) (k', v')) as [cur'|e q] eqn:Es; [|rewrite fold_merge_step_err in H; discriminate].
+    destruct (key_eqb k k') eqn:E.
+    - apply key_eqb_eq in E. subst k'. inversion Hk; subst v'.
+      destruct (step_hit_gen _ _ _ _ _ _ _ _ Es Hc Hcomp) as (n & w0 & ch' & Er & -> & Hn).
+      assert (Hrest : aget k rest = None).
+      { clear -Hni. induction rest as [|[k2 v2] r IHr]; cbn; [reflexivity|]. destruct (key_eqb k k2) eqn:E2.
+        - apply key_eqb_eq in E2. subst. exfalso. apply Hni. now left.
+        - apply IHr. intro. apply Hni. now right. }
+      destruct (steps_frame rec [] p k _ _ _ _ _ H Hrest) as (ch2 & -> & E2).
+      exists n, w0, ch2. repeat split; auto. intro Hi. destruct (Hn Hi) as (c' & Ec & HS). exists c'. split; [congruence|exact HS].
+    - destruct (step_frame rec [] _ _ _ _ _ _ _ _ Es E) as (ch' & -> & E').
+      rewrite <- E' in Hc. exact (IH _ _ _ _ Hnd' Hk H Hc Hcomp).
+  Qed.
+
+  Lemma finish_dict_shape fs xs ch2 fo xo cho r pr :
+    (if has_priority_over (Comp CDict fo xo cho) (Comp CDict fs xs ch2) true
+     then replace_self (Comp CDict fs xs ch2) (Comp CDict fo xo cho) true
+     else replace_other (Comp CDict fs xs ch2) (Comp CDict fo xo cho) true) = (r, pr) -> exists f' ch', r = Comp CDict f' xs ch'.
+  Proof.
+    intro H. destruct (has_priority_over (Comp CDict fo xo cho) (Comp CDict fs xs ch2) true).
+    - unfold replace_self in H. cbn [with_flags nflags maybe_promote ckind_eqb fst snd] in H. unfold propagate in H. cbn [nflags] in H.
+      rewrite prop_as_comp in H. destruct (prop_stops (become fs fo)); inversion H; subst; eauto.
+    - unfold replace_other in H. cbn [with_flags nflags maybe_promote ckind_eqb fst snd] in H. inversion H; subst; eauto.
+  Qed.
+
+  Lemma comp_merge_hit_gen p fs xs chs fo xo cho r w k v c0 :
+    delete (Comp CDict fo xo cho) = false -> NoDup (map fst cho) ->
+    comp_merge rec [] p (Comp CDict fs xs chs) (Comp CDict fo xo cho) = Ok (r, w) ->
+    aget k chs = Some c0 -> aget k cho = Some v -> is_comp c0 = true ->
+    exists n w0 f' ch', rec (p ++ [k]) c0 v = Ok (n, w0) /\ r = Comp CDict f' xs ch' /\
+                        (idiom n v = false -> exists c', aget k ch' = Some c' /\ Sim n c').
+  Proof.
+    intros Hd Hnd H Hc Hk Hcomp. unfold comp_merge, prune in H. rewrite Hd in H.
+    destruct (fold_left (merge_step rec [] p) cho (Ok (Comp CDict fs xs chs))) as [s2|e q] eqn:Ef; cbn [bind] in H; [|discriminate].
+    destruct (steps_hit_gen _ _ _ _ _ _ _ _ _ Hnd Hk Ef Hc Hcomp) as (n & w0 & ch2 & Er & -> & Hn).
+    destruct (if has_priority_over (Comp CDict fo xo cho) (Comp CDict fs xs ch2) true then _ else _) as [r0 pr] eqn:Efin.
+    inversion H; subst r0.
+    destruct (finish_dict_shape _ _ _ _ _ _ _ _ Efin) as (f' & ch' & Hr).
+    exists n, w0, f', ch'. repeat split; auto. intro Hi. destruct (Hn Hi) as (c1 & E1 & HS1).
+    destruct (finish_dict _ _ _ _ _ _ _ _ _ _ Efin E1) as (f'' & ch'' & c' & Hr' & Ec & HS'). rewrite Hr in Hr'. inversion Hr'; subst f'' ch''.
+    exists c'. split; [exact Ec|eapply Sim_trans; eauto].
+  Qed.
+End HitGen.
+
+(* the newer tree reaches the value v along the mapping path q, through non-deleting mappings with unique keys *)
+Fixpoint nreach (o : node) (q : path) (v : node) : Prop :=
+  match q with
+  | [] => o = v
+  | k :: r => match o with
+              | Comp CDict fo xo cho => delete o = false /\ NoDup (map fst cho) /\ match aget k cho with Some c => nreach c r v | None => False end
+              | _ => False
+              end
+  end.
+
+(* at any depth: where the older tree holds a container and the newer tree reaches a value, the merged tree holds the merge of the two
+   (unless that merge is the emptied outcome of a !del value - then the key is removed) *)
+Theorem merged_deep : forall q fuel p s o r w v c0,
+  q <> [] -> on_merge [] fuel p s o = Ok (r, w) -> nreach o q v -> dget s q = Some c0 -> is_comp c0 = true ->
+  exists fu p' n w0, on_merge [] fu p' c0 v = Ok (n, w0) /\ (idiom n v = false -> exists c', dget r q = Some c' /\ Sim n c').
+Proof.
+  induction q as [|k q' IH]; intros fuel p s o r w v c0 Hq H Hm Hs Hcomp0; [congruence|].
+  cbn [dget] in Hs. destruct s as [|ks fs xs chs]; [discriminate|]. destruct ks; try discriminate.
+  destruct (aget k chs) as [ck|] eqn:Hc; [|discriminate].
+  cbn [nreach] in Hm. destruct o as [|ko fo xo cho]; [contradiction|]. destruct ko; try contradiction.
+  destruct Hm as (Hd & Hnd & Hm). destruct (aget k cho) as [vk|] eqn:Hk; [|contradiction].
+  destruct fuel as [|fu]; [discriminate|]. cbn [on_merge dispatch is_funck is_listk] in H.
+  destruct q' as [|k2 q2].
+  - cbn in Hm, Hs. subst vk. inversion Hs; subst ck.
+    destruct (comp_merge_hit_gen _ _ _ _ _ _ _ _ _ _ _ _ _ Hd Hnd H Hc Hk Hcomp0) as (n & w0 & f' & ch' & Er & -> & Hn).
+    exists fu, (p ++ [k]), n, w0. split; [exact Er|]. intro Hi. destruct (Hn Hi) as (c' & Ec & HS).
+    exists c'. cbn [dget]. rewrite Ec. auto.
+  - assert (Hcomp : is_comp ck = true) by (destruct ck; [cbn in Hs; discriminate|reflexivity]).
+    assert (Hedk : explicit_delete vk = false).
+    { apply delete_explicit. cbn [nreach] in Hm. destruct vk as [|kv fv xv chv]; [contradiction|]. destruct kv; try contradiction. tauto. }
+    destruct (comp_merge_hit _ _ _ _ _ _ _ _ _ _ _ _ _ Hd Hnd H Hc Hk Hcomp Hedk) as (n & w0 & f' & ch' & c' & Er & -> & Ec & HS).
+    destruct (IH _ _ _ _ _ _ _ _ ltac:(discriminate) Er Hm Hs Hcomp0) as (fu' & p' & n' & w0' & Er' & Hn').
+    exists fu', p', n', w0'. split; [exact Er'|]. intro Hi. destruct (Hn' Hi) as (c1 & E1 & HS1).
+    destruct (Sim_dget _ _ _ _ HS E1) as (c2 & E2 & HS2).
+    exists c2. cbn [dget]. rewrite Ec. split; [exact E2|eapply Sim_trans; eauto].
+Qed.
